@@ -29,11 +29,16 @@ c0 = sum(1 for r in rows if r[5] == 'caught')
 c1 = sum(1 for r in rows if r[5].startswith('caught after'))
 out += ['', '%d seeds: %d caught as found, %d caught after strengthening the check, %d not caught.' % (
     n, c0, c1, n - c0 - c1), '']
-mx = os.path.join(S, 'matrix.txt')
-if os.path.exists(mx):
-    out += ['## All seeds x all quick checks', '',
-            'From a committed snapshot of /verif (`tools/seed_matrix.sh`); per seed the checks that exit 1.',
-            'A seed may legitimately break several properties.', '', '```'] + \
-        open(mx).read().splitlines() + ['```', '']
+lines = []
+for fn in ('matrix_rounds1-4.txt', 'matrix.txt'):
+    mx = os.path.join(S, fn)
+    if os.path.exists(mx):
+        lines += ['# ' + fn] + [l for l in open(mx).read().splitlines() if l != 'done']
+if lines:
+    out += ['## Seeds x quick checks anchored in the touched files', '',
+            'From committed snapshots of /verif (`tools/seed_matrix.sh`; the snapshot of rounds 1-4 is older than',
+            'the last strengthenings).  Format: `seed [checks run]: checks that exit 1`; `(Cxx:exit3)` = harness',
+            'error under that seed (e.g. the change uses a NumPy call the executor does not model).  A seed may',
+            'legitimately break several properties.', '', '```'] + lines + ['```', '']
 open(os.path.join(S, 'README.md'), 'w').write('\n'.join(out))
 print('\n'.join(out[-6:]))
